@@ -100,7 +100,7 @@ def split_delay(tape, total, parts):
 def gen_e1(tape, tier="quick", *, allow_pull=True, allow_cycles=True, allow_delay_push=True,
            allow_omission=True, allow_finish=False, allow_offsets=True, allow_faults=True,
            allow_delay=True, allow_buffering=True, allow_integrating=True, max_sim=5,
-           cycle_regime=None, pull_fanout=True, cycle_chance=(1, 3), adapter_fanout=True, allow_sinks=True, allow_static=True, allow_real=True):
+           cycle_regime=None, pull_fanout=True, cycle_chance=(1, 3), adapter_fanout=True, allow_sinks=True, allow_static=True, allow_real=True, sorted_diamond=False):
     n_sim = tape.weighted([(2, 5), (3, 6), (4, 3), (5, 2)])
     n_sim = min(n_sim, max_sim)
     n_pull = tape.weighted([(0, 6), (1, 3), (2, 1)]) if allow_pull else 0
@@ -146,9 +146,11 @@ def gen_e1(tape, tier="quick", *, allow_pull=True, allow_cycles=True, allow_dela
     links = []
     pull_consumers = {}
 
-    def add_link(src_ci, dst_ci, chain, share=True):
+    def add_link(src_ci, dst_ci, chain, share=True, same_output=None):
         c = comps[src_ci]
-        if c["outputs"] and tape.chance(1, 2) and not (c["kind"] == "pull" and not pull_fanout):
+        if same_output is not None:
+            oi = same_output
+        elif c["outputs"] and tape.chance(1, 2) and not (c["kind"] == "pull" and not pull_fanout):
             oi = tape.draw(len(c["outputs"]))
         else:
             oi = new_output(src_ci)
@@ -243,6 +245,31 @@ def gen_e1(tape, tier="quick", *, allow_pull=True, allow_cycles=True, allow_dela
                 if tape.chance(1, 3):
                     ch.insert(tape.draw(len(ch) + 1), gen_adapter(tape, PASS))
                 add_link(order[qp], cons, ch)
+
+    # monotone diamond: a consumer reads one pull-based component twice, the more delayed link first, the delays
+    # no further apart than the consumer's smallest step - the merged request stream then never goes backwards, so
+    # this stays outside the recorded finding even where shared pull-based components are otherwise left out
+    if allow_pull and n_pull and sorted_diamond and tape.chance(*sorted_diamond):
+        cands = [k for k, l in enumerate(links)
+                 if comps[l["src"][0]]["kind"] == "pull" and comps[l["dst"][0]]["kind"] == "sim"
+                 and all(a["kind"] in PASS or a["kind"] == "delay_fixed" for a in l["chain"])
+                 and "shared_with" not in l
+                 and sum(1 for m in links if m["src"][0] == l["src"][0]) == 1
+                 and not (comp_upstream_kinds(l["src"][0]) & {"avg", "sum", "delay_pull"})]
+        if cands:
+            l0 = links[cands[tape.draw(len(cands))]]
+            d0 = sum(a["d"] for a in l0["chain"] if a["kind"] == "delay_fixed")
+            if d0 == 0 and allow_delay and tape.chance(2, 3):
+                d0 = tape.choice(comps[l0["dst"][0]]["steps"] + [1, 2])
+                l0["chain"].insert(tape.draw(len(l0["chain"]) + 1), {"kind": "delay_fixed", "d": d0})
+            hi = min(d0, min(comps[l0["dst"][0]]["steps"]))
+            kk = (1 + tape.draw(hi)) if hi and tape.chance(3, 4) else tape.draw(hi + 1)
+            d1 = d0 - kk
+            ch = [{"kind": "delay_fixed", "d": d1}] if d1 > 0 else []
+            if tape.chance(1, 3):
+                ch.insert(tape.draw(len(ch) + 1), gen_adapter(tape, PASS))
+            add_link(l0["src"][0], l0["dst"][0], ch, share=False,
+                     same_output=l0["src"][1] if tape.chance(1, 2) else None)
 
     # cycles: back edges carrying a delay
     max_steps = sum(max(c["steps"]) for c in comps if c["kind"] == "sim")
